@@ -436,6 +436,9 @@ SPH_IDX_PROTO = [("SphericalRange", ("Double",)), ("SphericalAzimuth", ("Single"
                  ("RowIndex", ("Integer", 0, 1000)), ("ColumnIndex", ("Integer", -(1 << 62), (1 << 62))), ("ReturnIndex", ("Integer", 0, 3)), ("ReturnCount", ("Integer", 0, 3))]
 SPH_ROW_PROTO = [("SphericalRange", ("Double",)), ("SphericalAzimuth", ("Single",)), ("SphericalElevation", ("ScaledInteger", -90000, 90000, 0.001, 0.0)), ("RowIndex", ("Integer", -7, 1000))]
 XYZ_DOUBLE_PROTO = [("CartesianX", ("Double",)), ("CartesianY", ("Double",)), ("CartesianZ", ("Double",))]
+SPH_DOUBLE_PROTO = [("SphericalRange", ("Double",)), ("SphericalAzimuth", ("Double",)), ("SphericalElevation", ("Double",))]
+IDX_PROTO = [("CartesianX", ("Integer", 0, 0)), ("CartesianY", ("Integer", 0, 0)), ("CartesianZ", ("Integer", 0, 0)),
+             ("RowIndex", ("Integer", -7, 1000)), ("ColumnIndex", ("Integer", -(1 << 62), (1 << 62))), ("ReturnIndex", ("Integer", 0, 3)), ("ReturnCount", ("Integer", 0, 3))]
 XYZ_SCALED_PROTO = [("CartesianX", ("ScaledInteger", -1000, 1000, 0.25, -3.0)), ("CartesianY", ("Single",)), ("CartesianZ", ("Double",))]
 
 
@@ -462,6 +465,9 @@ def pcw_bounds_only_claims(s, I):
 def bounds_scenarios(tier="quick"):
     out = []
     combos = [("spherical + row/column/return index", SPH_IDX_PROTO, 1), ("xyz scaled/single/double", XYZ_SCALED_PROTO, 1)]
+    # two points: a bound that tracks the wrong extreme (min/max swapped for ONE attribute) is invisible with a single point
+    combos.append(("spherical double", SPH_DOUBLE_PROTO, 2))
+    # (a two-point index-group scenario over IDX_PROTO did not finish within 6 min and is not registered)
     if tier != "quick":
         # two points: min/max over the points, every ordering a symbolic path (slow: FP comparisons in every feasibility query)
         combos.append(("xyz double", XYZ_DOUBLE_PROTO, 2))
